@@ -45,11 +45,11 @@ func GenSchema(r *core.Rand) Schema {
 			m.Tags = append(m.Tags, tagPool[k])
 		}
 		if wide {
-			for k := r.Range(8, 24); k > 0; k-- {
-				m.Fields["w"+strconv.Itoa(r.Intn(30))] = FieldTypes[r.Intn(len(FieldTypes))]
+			for k := r.Pick3(r.Range(8, 24), r.Range(8, 24), r.Range(60, 110)); k > 0; k-- {
+				m.Fields["w"+strconv.Itoa(r.Intn(140))] = FieldTypes[r.Intn(len(FieldTypes))]
 			}
 			for k := r.Range(4, 12); k > 0; k-- {
-				t := "w" + strconv.Itoa(r.Intn(30)) // tags shadowing the wide fields
+				t := "w" + strconv.Itoa(r.Intn(140)) // tags shadowing the wide fields
 				dup := false
 				for _, x := range m.Tags {
 					if x == t {
@@ -111,6 +111,9 @@ func Select(r *core.Rand, o Opts, depth int) string {
 	var b strings.Builder
 	b.WriteString("SELECT ")
 	nf := r.Weighted([]int{0, 6, 4, 3, 1, 1, 1})
+	if r.Chance(1, 40) {
+		nf = r.Range(9, 40) // long field lists (size thresholds in Clone, ColumnNames ...)
+	}
 	for i := 0; i < nf; i++ {
 		if i > 0 {
 			b.WriteString(", ")
@@ -162,7 +165,7 @@ func Select(r *core.Rand, o Opts, depth int) string {
 		b.WriteString(" SOFFSET " + strconv.Itoa(r.Range(1, 100)))
 	}
 	if depth == 0 && r.Chance(pc(o, 1, 4), 20) {
-		b.WriteString(" TZ('" + r.Pick([]string{"UTC", "America/New_York", "Europe/Berlin", "Asia/Tokyo"}) + "')")
+		b.WriteString(" TZ('" + r.Pick([]string{"UTC", "America/New_York", "Europe/Berlin", "Asia/Tokyo", "UTC", "Mars/Olympus_Mons"}) + "')")
 	}
 	return b.String()
 }
@@ -235,7 +238,7 @@ func wildOrRegex(r *core.Rand) string {
 	case 4:
 		return r.Pick([]string{"/f[0-3]/", "/^f/", "/./", "/x/", "/t|f0/"})
 	case 5:
-		return r.Pick([]string{"/value|usage/", "/^(host|region)$/", "/nomatch/"})
+		return r.Pick([]string{"/value|usage/", "/^(host|region)$/", "/nomatch/", "/^w/", "/w1/"})
 	}
 	return "*"
 }
@@ -255,7 +258,7 @@ func literal(r *core.Rand) string {
 	case 5:
 		return "-" + strconv.Itoa(r.Range(1, 50))
 	case 6:
-		return r.Pick([]string{"9223372036854775807", "18446744073709551615", "0.5", "1e3"})
+		return r.Pick([]string{"9223372036854775807", "18446744073709551615", "0.5", "1e3", "9223372036854775807ns", "-9223372036854775807ns", "9223372036854775us", "-9223372036854775807ns - 1ns", "106751d", "'2000-01-01'", "'2000-01-32'", "'2000-13-01T00:00:00Z'", "'2000-01-01 25:00:00'", "'2000-01-01T00:00:00.123456789Z'"})
 	}
 	return strconv.Itoa(r.Range(1, 9))
 }
@@ -392,6 +395,9 @@ func Cond(r *core.Rand, o Opts, depth int) string {
 		case 0:
 			return ident(r, tagPool, o.SafeNames) + " " + r.Pick([]string{"=", "!=", "<>"}) + " '" + r.Pick([]string{"a", "b", "server01", "uswest"}) + "'"
 		case 1:
+			if r.Chance(o.Odd, 40) {
+				return literal(r) + " " + r.Pick([]string{"=", "!=", "<", "<=", ">", ">=", "+", "-"}) + " " + literal(r)
+			}
 			return ref(r, o) + " " + r.Pick([]string{"=", "!=", "<", "<=", ">", ">="}) + " " + literal(r)
 		case 2:
 			if r.Chance(o.Odd, 60) {
